@@ -37,6 +37,10 @@ pub struct Case {
     /// Some(pos): the transport refuses ONE write call, the one that would carry client byte `pos` (connector path
     /// only): the attempt may fail, but what was written stays within the rules — and so does the next connection
     pub write_refused_at: Option<usize>,
+    /// ConnCfg::earlier_connections: the Connector object served other connect() calls before this one
+    pub earlier: u8,
+    /// ConnCfg::builder_order
+    pub order: u8,
 }
 
 pub struct C02 {
@@ -147,7 +151,7 @@ impl Prop for C02 {
     }
     fn prepare(&mut self, tier: Tier) -> Result<(), String> {
         let mut cs = vec![];
-        let base = Case { direct_mask: None, use_nla: true, check_certificate: false, cert: Cert::A, cc_kind: CcKind::Response, selected: 2, cc_flags: 0, cc_len_field: 8, block: "base", mode: 0, no_provider: false, upgrades: None, write_refused_at: None };
+        let base = Case { direct_mask: None, use_nla: true, check_certificate: false, cert: Cert::A, cc_kind: CcKind::Response, selected: 2, cc_flags: 0, cc_len_field: 8, block: "base", mode: 0, no_provider: false, upgrades: None, write_refused_at: None, earlier: 0, order: 0 };
         // A: every selected-protocol value x configuration (through the public connector)
         for use_nla in [true, false] {
             for check in [false, true] {
@@ -164,6 +168,16 @@ impl Prop for C02 {
         for use_nla in [true, false] {
             for pos in [0usize, 5, 19, 25, 300, 500, 800, 1100, 1500, 2200, 3000] {
                 cs.push(Case { use_nla, selected: if use_nla { 2 } else { 1 }, write_refused_at: Some(pos), block: "write-refused", ..base.clone() });
+            }
+        }
+        // A3: the Connector object was used before (refused attempts, a complete connection) and re-configured
+        for earlier in 1..=4u8 {
+            for use_nla in [true, false] {
+                for check in [false, true] {
+                    for sel in [0u32, 1, 2, 8] {
+                        cs.push(Case { use_nla, check_certificate: check, selected: sel, earlier, cert: if check { Cert::M } else { Cert::A }, block: "connector-reuse", ..base.clone() });
+                    }
+                }
             }
         }
         // B: reply kinds x values
@@ -235,6 +249,10 @@ impl Prop for C02 {
                     if use_nla {
                         cs.push(Case { cert, check_certificate: check, use_nla, selected: 1, block: "certificate", ..base.clone() });
                     }
+                    // the same with the builder calls in the five other orders (the decision must not depend on it)
+                    for order in 1..=5u8 {
+                        cs.push(Case { cert, check_certificate: check, use_nla, selected: if use_nla { 2 } else { 1 }, order, block: "certificate-x-builder-order", ..base.clone() });
+                    }
                     // the same under the other logon modes (the certificate decision must not depend on them)
                     for mode in 1..=3u8 {
                         cs.push(Case { cert, check_certificate: check, use_nla, selected: if use_nla { 2 } else { 1 }, mode, block: "certificate-x-mode", ..base.clone() });
@@ -265,7 +283,7 @@ impl Prop for C02 {
         json!({"idx": idx, "case": self.cases[idx as usize]})
     }
     fn rule(&self) -> String {
-        "cases = (connector configuration | offered mask, server certificate, connection-confirm contents). [selected-value] all 256 low-byte values, every single bit 2^8..2^31 and mixed patterns x NLA on/off x certificate checking on/off; [reply-kind] failure / echoed request / absent / every other type byte x 6 values; [flags] every flag byte x valid and invalid selection; [length-field]; [offered-mask] x224::Client::connect with masks {0,1,2,3,8,0xB} x 10 selections x 3 kinds; [offered-mask-no-provider] the same without an authentication provider; [selected-value-x-mode] 7 selections under restricted admin / blank credentials / hash logon; the negotiation request on the wire must offer exactly the configured protocols; [write-refused] one write call refused by the transport at 11 byte positions from the request to the application records, NLA on and off: whatever was written obeys the same rules, and (pair block) so does the connection that follows in the same process; [two-upgrades] every ordered pair of {start_ssl, start_nla} x {checking on, off} on one transport against an untrusted, an expired and a trusted certificate; [certificate] trusted RSA, trusted EC, a leaf of a trusted root; and six kinds of untrusted certificate: unknown self-signed, trusted-but-expired, trusted-but-not-yet-valid, leaf of an unknown root, leaf naming the trusted root but signed by another key, trusted certificate with a flipped signature bit; x checking x NLA x logon mode (plain, restricted admin, blank credentials, NT hash). Executed through the real Connector::connect over real TLS. Non-trivial: the reply is not the honest one for the configuration.".into()
+        "cases = (connector configuration | offered mask, server certificate, connection-confirm contents). [selected-value] all 256 low-byte values, every single bit 2^8..2^31 and mixed patterns x NLA on/off x certificate checking on/off; [reply-kind] failure / echoed request / absent / every other type byte x 6 values; [flags] every flag byte x valid and invalid selection; [length-field]; [offered-mask] x224::Client::connect with masks {0,1,2,3,8,0xB} x 10 selections x 3 kinds; [offered-mask-no-provider] the same without an authentication provider; [selected-value-x-mode] 7 selections under restricted admin / blank credentials / hash logon; the negotiation request on the wire must offer exactly the configured protocols; [write-refused] one write call refused by the transport at 11 byte positions from the request to the application records, NLA on and off: whatever was written obeys the same rules, and (pair block) so does the connection that follows in the same process; [connector-reuse] a Connector that served one / two refused attempts or a complete connection under another configuration (or one refused attempt under the same) and was re-configured, x NLA x checking (untrusted certificate when on) x selections {0,1,2,8}; [two-upgrades] every ordered pair of {start_ssl, start_nla} x {checking on, off} on one transport against an untrusted, an expired and a trusted certificate; [certificate] trusted RSA, trusted EC, a leaf of a trusted root; and six kinds of untrusted certificate: unknown self-signed, trusted-but-expired, trusted-but-not-yet-valid, leaf of an unknown root, leaf naming the trusted root but signed by another key, trusted certificate with a flipped signature bit; x checking x NLA x logon mode (plain, restricted admin, blank credentials, NT hash) and x the six orders of the Connector builder calls. Executed through the real Connector::connect over real TLS. Non-trivial: the reply is not the honest one for the configuration.".into()
     }
     fn assumptions(&self) -> Vec<String> {
         vec![
@@ -284,7 +302,7 @@ impl Prop for C02 {
         let c = self.cases[idx as usize].clone();
         let p = ServerParams { cc_kind: c.cc_kind.clone(), selected: c.selected, cc_flags: c.cc_flags, cc_len_field: c.cc_len_field, ..Default::default() };
         let offered: u32 = c.direct_mask.unwrap_or(if c.use_nla { 3 } else { 1 });
-        let cfg = ConnCfg { use_nla: c.use_nla, check_certificate: c.check_certificate, restricted_admin: c.mode == 1, blank_creds: c.mode == 2, use_hash: c.mode == 3, ..Default::default() };
+        let cfg = ConnCfg { use_nla: c.use_nla, check_certificate: c.check_certificate, restricted_admin: c.mode == 1, blank_creds: c.mode == 2, use_hash: c.mode == 3, earlier_connections: c.earlier, builder_order: c.order, ..Default::default() };
         if let Some((n1, c1, n2, c2)) = c.upgrades {
             return two_upgrades(&c, &cfg, n1, c1, n2, c2);
         }
